@@ -226,6 +226,14 @@ theorem stored_never_decreases (cfg : Cfg) (hx : cfg.ignoreExact = true) (evs : 
     apply hif; split
     · rfl
     · unfold doApplyBegin beginAt ignoreMsg ackTo; (repeat' split) <;> rfl
+  case applyGetFail =>
+    apply hif; split
+    · rfl
+    · unfold doApplyGetFail ignoreMsg ackTo; (repeat' split) <;> rfl
+  case applyNoRows =>
+    apply hif; split
+    · rfl
+    · unfold doApplyNoRows; (repeat' split) <;> rfl
   case applyTake => apply hif; unfold doApplyTake; (repeat' split) <;> rfl
   case applyAcquire => apply hif; unfold doApplyAcquire; (repeat' split) <;> rfl
   case applyWrite =>
@@ -792,6 +800,24 @@ theorem ignore_exact_keeps_unflushed :
     let st := run ⟨true, true, true⟩ St.init ignoreTrace
     st.groupAck = -1 ∧ st.memMut.length = 2 := by decide
 
+/-- WITNESS 5 (same wrong shape of `IgnoreMessage`, reached through the OTHER caller: `partition.replica`
+when `GetMessage` fails): entries 0, 1 flushed, 2 and 3 applied but not flushed, entry 4 cannot be read:
+the acknowledged position jumps to 4 over the unflushed 2 and 3; after a crash the replicator resumes at 5. -/
+def getFailTrace : List Ev :=
+  [.append 0 0] ++ applyRound ++ [.append 1 1] ++ applyRound ++ flushRound ++
+  [.append 0 1] ++ applyRound ++ [.append 1 0] ++ applyRound ++ [.appendBad, .applyGetFail] ++
+  [.crash, .recover, .rewind] ++ rounds 3
+
+theorem getfail_any_skips_unflushed :
+    let st := run ⟨true, true, false⟩ St.init getFailTrace
+    st.groupAck = 4 ∧ st.stored = some 1 ∧ st.consumed = 4 ∧ (fileRows st).length = 2 ∧ st.memMut = [] := by decide
+
+/-- with the exact condition the same history keeps both entries: the ack stays at the stored sequence,
+2 and 3 are replayed (the unreadable entry is consumed again and skipped again) -/
+theorem getfail_exact_keeps_unflushed :
+    let st := run ⟨true, true, true⟩ St.init getFailTrace
+    st.groupAck = 1 ∧ st.stored = some 1 ∧ st.memMut.length = 2 ∧ st.consumed = 4 := by decide
+
 end Neg
 
 /-- the bare inequality `groupAck ≤ stored` does NOT hold once corrupt entries exist: a corrupt entry
@@ -808,6 +834,123 @@ theorem ignore_is_next_only :
     ignoreMessageCalls = ["r.AckIndex", "r.SetAckIndex"] ∧
     replicaCalls.filter (fun s => s ∈ ["reader.Uncompress", "defer:r.IgnoreMessage", "defer:family.CommitSequence"])
       = ["reader.Uncompress", "defer:r.IgnoreMessage", "defer:family.CommitSequence"] := by decide
+
+/-! ### the `GetMessage`-failure branch of `partition.replica` (round 12)
+
+`partition.replica`: `seq := Consume(); data, err := GetMessage(seq); if err != nil { IgnoreMessage(seq) } else
+{ Replica(seq, data) }`. The error branch is the model event `applyGetFail` (enabled on an unreadable
+entry): the consumer group moves, `Replica` does not run, so the family's sequence is NOT committed —
+unlike the decompress failure inside `Replica` (`applyBegin` on a corrupt entry: `IgnoreMessage` AND
+`CommitSequence`). All theorems above quantify over histories that contain this event. -/
+
+/-- `IgnoreMessage` (the shape in /repo) moves the acknowledged position by at most one entry, and only
+onto the entry it was called for, which then is the one right behind the old position and already
+consumed — for every state, reachable or not -/
+theorem ignore_moves_ack_onto_next_only (cfg : Cfg) (hc : cfg.ignoreExact = true) (st : St) (s : Int) :
+    (ignoreMsg cfg st s).groupAck = st.groupAck ∨
+    (s = st.groupAck + 1 ∧ s ≤ st.consumed ∧ (ignoreMsg cfg st s).groupAck = s) := by
+  unfold ignoreMsg ackTo
+  rw [hc]
+  simp only [if_true]
+  split
+  · split
+    · rename_i h1 h2
+      exact Or.inr ⟨h1.symm, h2.2, rfl⟩
+    · exact Or.inl rfl
+  · exact Or.inl rfl
+
+/-- a failed `GetMessage` touches the consumer group only: log, family sequence, memory databases, data
+files, stored sequence and dictionaries are what they were (every state, every `Cfg`) -/
+theorem getfail_touches_only_the_group (cfg : Cfg) (st : St) :
+    (step cfg st .applyGetFail).seq = st.seq ∧ (step cfg st .applyGetFail).stored = st.stored ∧
+    (step cfg st .applyGetFail).files = st.files ∧ (step cfg st .applyGetFail).memMut = st.memMut ∧
+    (step cfg st .applyGetFail).frozen = st.frozen ∧ (step cfg st .applyGetFail).log = st.log ∧
+    (step cfg st .applyGetFail).inflight = st.inflight ∧ (step cfg st .applyGetFail).gcLow = st.gcLow ∧
+    st.consumed ≤ (step cfg st .applyGetFail).consumed ∧
+    (step cfg st .applyGetFail).consumed ≤ st.consumed + 1 := by
+  simp only [step, whenRunning, doApplyGetFail, ignoreMsg, ackTo]
+  repeat' split
+  all_goals (refine ⟨rfl, rfl, rfl, rfl, rfl, rfl, rfl, rfl, ?_, ?_⟩ <;> (try simp only []) <;> omega)
+
+/-- The family's sequence may lag behind the acknowledged position — but only over unreadable entries:
+in every reachable idle running state every entry above the family's sequence and at or below the group
+ack carries no rows. (Before the `GetMessage` branch was modelled the family's sequence was never below
+the ack; now it can be, and this is the statement that keeps `ValidateSequence` sound: the entries the
+family has not seen and the log no longer offers are exactly the ones with nothing to apply.) -/
+theorem ack_past_family_seq_only_over_unreadable (cfg : Cfg) (hx : cfg.ignoreExact = true)
+    (hc : cfg.atomicAcquire = true) (evs : List Ev)
+    (hr : (run cfg St.init evs).phase = .running) (hn : (run cfg St.init evs).inflight = none)
+    (s : Int) (h1 : ov (run cfg St.init evs).seq < s) (h2 : s ≤ (run cfg St.init evs).groupAck) :
+    Bad (run cfg St.init evs) s := by
+  have hi := inv_run cfg hx evs (gapFree_init cfg hc evs) inv_init
+  exact hi.idle hr hn s h1 (Int.le_trans h2 hi.ack_cons)
+
+/-- non-vacuity: an unreadable entry right behind a fully flushed log is acknowledged by the failed
+`GetMessage` while the family's sequence stays below it; a later valid entry still passes validation,
+is flushed, and the stored sequence catches up -/
+example :
+    (let st := run ⟨true, true, true⟩ St.init ([.append 0 0] ++ applyRound ++ flushRound ++ [.appendBad, .applyGetFail])
+     st.groupAck = 1 ∧ st.seq = some 0 ∧ st.stored = some 0 ∧ st.consumed = 1 ∧ Bad st 1 ∧
+     st.phase = .running ∧ st.inflight = none) ∧
+    (let st := run ⟨true, true, true⟩ St.init ([.append 0 0] ++ applyRound ++ flushRound ++ [.appendBad, .applyGetFail] ++
+       [.append 1 1] ++ applyRound ++ flushRound)
+     st.groupAck = 2 ∧ st.seq = some 2 ∧ st.stored = some 2 ∧ (fileRows st).length = 2) ∧
+    -- not the next entry: nothing is acknowledged, the family's sequence stays
+    (let st := run ⟨true, true, true⟩ St.init ([.append 0 0] ++ applyRound ++ [.appendBad, .applyGetFail])
+     st.groupAck = -1 ∧ st.seq = some 0 ∧ st.consumed = 1) := by decide
+
+open LinVerif.Generated.C07 in
+/-- `partition.replica` as data flow: the sequence handed to `GetMessage`, `IgnoreMessage` and `Replica` is
+the one `Consume` returned; the error branch of `GetMessage` calls `IgnoreMessage(seq)` and no other method
+of the replicator (in particular not `Replica`: no validation, no `CommitSequence` — the event
+`applyGetFail`), the else branch calls `Replica(seq, data)` and nothing else (the events `applyRound`) -/
+theorem getfail_branch_is_ignore_only :
+    partitionReplicaBranches =
+      ["if:replicator.IsReady() && replicator.Connect()", "assign:seq := replicator.Consume()", "if:seq >= 0",
+       "assign:data, err := replicator.GetMessage(seq)", "then:replicator.IgnoreMessage(seq)",
+       "else:replicator.Replica(seq, data)"] := by decide
+
+/-! ### entries that decompress but yield no rows (round 12)
+
+`Replica`: `rowsLen == 0` returns; a panic inside `UnmarshalRows` unwinds through the deferred function with
+`err == nil`; `WriteRows`' error is a shadowed variable. In all three the deferred function calls
+`CommitSequence` and NOT `IgnoreMessage`: model event `applyNoRows`. -/
+
+/-- such an entry moves the consumer's head and (when it passes validation) the family's sequence, and
+nothing else: in particular NOTHING is acknowledged — the log keeps it until a later flush stores a
+sequence at or above it (every state, every `Cfg`) -/
+theorem norows_commits_without_ack (cfg : Cfg) (st : St) :
+    (step cfg st .applyNoRows).groupAck = st.groupAck ∧ (step cfg st .applyNoRows).stored = st.stored ∧
+    (step cfg st .applyNoRows).files = st.files ∧ (step cfg st .applyNoRows).memMut = st.memMut ∧
+    (step cfg st .applyNoRows).frozen = st.frozen ∧ (step cfg st .applyNoRows).log = st.log ∧
+    (step cfg st .applyNoRows).inflight = st.inflight ∧
+    ((step cfg st .applyNoRows).seq = st.seq ∨ (step cfg st .applyNoRows).seq = some (st.consumed + 1)) := by
+  simp only [step, whenRunning, doApplyNoRows]
+  repeat' split
+  all_goals simp
+
+/-- non-vacuity: two such entries behind a valid one: sequence 2 committed, nothing acknowledged; the next
+flush stores and acknowledges sequence 2 with the one row; after a crash nothing is replayed -/
+example :
+    (let st := run ⟨true, true, true⟩ St.init ([.append 0 0] ++ applyRound ++ [.appendBad, .applyNoRows, .appendBad, .applyNoRows])
+     st.groupAck = -1 ∧ st.seq = some 2 ∧ st.consumed = 2 ∧ st.memMut.length = 1) ∧
+    (let st := run ⟨true, true, true⟩ St.init ([.append 0 0] ++ applyRound ++ [.appendBad, .applyNoRows, .appendBad, .applyNoRows] ++
+       flushRound ++ [.crash, .recover, .rewind])
+     st.groupAck = 2 ∧ st.stored = some 2 ∧ st.consumed = 2 ∧ (fileRows st).length = 1) := by decide
+
+open LinVerif.Generated.C07 in
+/-- `Replica`'s error flow: the deferred function is registered AFTER the validation (a rejected sequence is
+neither ignored nor committed); it calls `IgnoreMessage` only under `err != nil` and `CommitSequence`
+unconditionally; the only statement that sets that `err` is `Uncompress` (`applyBegin` on a corrupt entry);
+`rowsLen == 0` returns with `err == nil` and the error of `WriteRows` is a NEW variable (`:=` in the if
+header), so both reach the deferred function with `err == nil`: `applyNoRows`. -/
+theorem replica_error_flow_is_model :
+    replicaErrFlow =
+      ["var:err", "guard:!r.family.ValidateSequence(r.leader, sequence)", "return",
+       "defer-if:err != nil", "defer-then:r.IgnoreMessage(sequence)", "defer:r.family.CommitSequence(r.leader, sequence)",
+       "set:block, err = r.reader.Uncompress", "guard:err != nil", "return",
+       "guard:rowsLen == 0", "return",
+       "shadow:err := r.family.WriteRows", "guard:err != nil", "return"] := by decide
 
 /-! ### WAL garbage collection (non-vacuity of `walExpire`) -/
 
@@ -857,7 +1000,7 @@ theorem files_and_stored_change_only_at_dataCommit (cfg : Cfg) (st : St) (e : Ev
     (step cfg st e).files = st.files ∧ (step cfg st e).stored = st.stored := by
   cases e <;> first
     | exact absurd rfl h
-    | (simp only [step, whenRunning, doCrash, doRecover, doRewind, doAppend, doAppendBad, doApplyBegin, beginAt,
+    | (simp only [step, whenRunning, doCrash, doRecover, doRewind, doAppend, doAppendBad, doApplyBegin, doApplyGetFail, doApplyNoRows, beginAt,
         ignoreMsg, ackTo, ackOpt, addNames, doApplyTake, doApplyAcquire, doApplyWrite, putRow, doApplyCommit,
         doFreeze, doAckCallback, doLogGC, doWalExpire]
        repeat' split
